@@ -1168,6 +1168,21 @@ fn second_close_keeps_tail(only: Option<&Value>) -> R {
             if r.is_ok() {
                 return found(K, input, "Band::close on an already closed band returned Ok".into(), "Err(AlreadyExists): a tail is written at most once", "writing a band tail a second time was reported as success");
             }
+            // "no path is written twice": a create-new write of a path that already holds content is REFUSED even when the
+            // bytes offered are the very bytes stored (the refusal of an identical BANDHEAD is what stops the loser of a band
+            // race; round 8, seed C07-6 made the transport accept "idempotent" creates)
+            for (rel, bytes) in &before {
+                let rel = rel.trim_start_matches('/');
+                let Some(bytes) = bytes else { continue };
+                if bytes.is_empty() || !apath.join(rel).is_file() {
+                    continue;
+                }
+                let r2 = archive.transport().write(rel, bytes, conserve::transport::WriteMode::CreateNew).await;
+                if r2.is_ok() {
+                    return found(K, json!({"tail": tailkind, "rewritten": rel}), format!("Transport::write({rel:?}, the bytes it already holds, CreateNew) returned Ok"),
+                        "Err(AlreadyExists)", "a create-new write over an existing file with identical bytes was accepted: the loser of a race for a band is no longer refused");
+                }
+            }
             // the first backup and the band are still usable
             if !su!(band.is_closed().await) || su!(archive.last_complete_band().await).map(|b| b.id()) != Some(bid(1)) {
                 return found(K, input, "after the refused second close the band is no longer the latest complete one".into(), "b0001 stays closed", "a refused write changed the state of the archive");
